@@ -205,8 +205,10 @@ def _run_case(mod, subname, case):
     sub = _subchecks(mod)[subname]
     if sub.check is None:
         raise RuntimeError(f"sub-check {subname} has no single-case check")
+    import contextlib
     try:
-        sub.check(case)
+        with contextlib.redirect_stdout(open(os.devnull, "w")):      # the code under test prints solver iterations
+            sub.check(case)
     except Violation as v:
         return v.items
     except Exception as exc:  # noqa: BLE001
